@@ -185,6 +185,17 @@ def analyse(ctx, prog, ci, entry, rule, sites):
         n_raise += 1
         ofunc, onode = fl.sites[origin[3]]
         key = f'{ofunc.key}::{norm(onode)[:120]}'
+        if ofunc.cls is None and ofunc.parent is None:
+            # a refusal raised through a shared module-level helper: one rejection point per call site of the helper
+            evs = list(p.events)
+            k_ = evs.index(origin) if origin in evs else len(evs)
+            want = ofunc.mod.name + '.' + ofunc.qualname
+            for ev in reversed(evs[:k_]):
+                if ev[0] == 'call' and ev[2] == 'inline' and ev[1] == want:
+                    cfunc, cnode = fl.sites[ev[3]]
+                    key = f'{cfunc.key}::{norm(cnode)[:120]} -> {ofunc.qualname}'
+                    ofunc, onode = cfunc, cnode
+                    break
         rec = sites.setdefault((rule, key), {'where': ofunc.where(onode), 'classes': set(), 'paths': 0, 'bad': []})
         rec['classes'].add(ci.name)
         rec['paths'] += 1
@@ -209,6 +220,8 @@ def implicit_shape_rejections(ctx, prog, rule):
         if upd is None or ini is None or upd.key in seen:
             continue
         seen.add(upd.key)
+        from .. import inline as _inl
+        upd, ini = _inl.inlined(prog, upd), _inl.inlined(prog, ini)     # refusals raised through shared helpers read in place
         stmts = astutil.stmts_of(upd.node)
         accs = [st for st in stmts if isinstance(st, ast.AugAssign) and isinstance(st.target, ast.Attribute) and norm(st.target.value) == 'self']
         if len(accs) < 2:
